@@ -42,4 +42,12 @@ PROPS = {
                 profiles=(["debug", "release"], ["debug", "release"]), case_timeout=400,
                 rule="cases = sequences over {open(None), open(Some(id)), close(id)} (ids include 0, max, max+1) for channel_max in {1,2,3,small,255,65534,65535}: exhaustive short sequences, boundary fill/free/refill runs, random sequences, and end-to-end sequences with client and server closes; distinct = digest of (max, sequence); all non-trivial",
                 assumptions=["trusted base: the set model in harness/src/props/c10.rs"]),
+    "C15": dict(level="exploration",
+                level_text="Held on the executions produced: the real negotiation (hooked make_tune_ok) is compared with a reference written from the statement over a full boundary grid (14 x 14 channel_max, 15 x 15 frame_max, 9 x 9 heartbeat values) plus random pairs; end to end, for sampled configurations the TuneOk on the wire is compared with the reference and the connection is then probed for obedience: open_channel(Some(cm+1)) must fail and Some(cm) succeed, a publish of > 3 x frame_max bytes must produce no frame longer than frame_max, the first idle heartbeat must come h +- tolerance after the last write (never when 0), and FrameMaxTooSmall must leave no TuneOk on the wire.",
+                level_note="Component part uses the verif::make_tune_ok hook (calls ConnectionOptions::make_tune_ok). Heartbeat obedience is wall-clock: lower bound h-150 ms is always a violation, upper bound h+1 s is a violation up to h+3 s and inconclusive beyond (loaded machine). Deeper heartbeat timing is C17's job.",
+                technique="runtime monitoring: reference-function oracle over a boundary grid (hooked component) + end-to-end wire and behaviour probes",
+                progress=False, abort=False, min_nontrivial=(50, 500),
+                profiles=(["debug"], ["debug", "release"]), case_timeout=300,
+                rule="cases = (client channel_max, frame_max, heartbeat) x (server channel_max, frame_max, heartbeat): boundary grid chunks, random pair batches of 2000, end-to-end configurations; distinct = digest of the configuration (grid chunk / batch id); all non-trivial",
+                assumptions=["trusted base: the reference negotiation in harness/src/props/c15.rs"]),
 }
